@@ -2,7 +2,8 @@
 //! under the interpreter so that undefined behaviour (out-of-bounds reads, invalid values, aliasing
 //! under tree borrows) in a decoder fed hostile bytes is reported even when natively it "works".
 //!
-//!   cargo +nightly miri run            (MIRIFLAGS=-Zmiri-tree-borrows; MIRI_C20_CASES=n, default 60;
+//!   MIRIFLAGS="-Zmiri-tree-borrows -Zmiri-env-forward=MIRI_C20_CASES -Zmiri-env-forward=MIRI_C20_SEED" \\
+//!   cargo +nightly miri run          (MIRI_C20_CASES=n, default 60;
 //!                                       MIRI_C20_SEED=s, default 1)
 //!
 //! Exit code 0 and a `MIRI-C20 ok ...` line = no UB and no oracle failure on the executed cases.
